@@ -754,6 +754,16 @@ class BoolFlow:
                             st[d["l"]] = ("V", "Err", 1)
                         elif ty.startswith(("std::option::Option<", "core::option::Option<")):
                             st[d["l"]] = ("V", "None", 0)
+                    # adaptors that keep the variant, and `?`'s branch: Ok -> Continue, Err -> Break
+                    if cal in ("Result::map_err", "Result::map", "Result::inspect_err", "Result::inspect", "Option::map", "Try::branch") and t.get("args"):
+                        x = self._val(st, t["args"][0])
+                        if isinstance(x, tuple) and x[0] == "R":
+                            x = st.get(x[1])
+                        if isinstance(x, tuple) and x[0] == "V":
+                            if cal == "Try::branch":
+                                st[d["l"]] = ("V", "Continue", 0) if x[1] in ("Ok", "Some") else ("V", "Break", 1)
+                            else:
+                                st[d["l"]] = x
                     tst = self._TESTS.get(cal)
                     if tst and t.get("args"):
                         x = self._val(st, t["args"][0])
@@ -859,6 +869,19 @@ def feasible_after(body, site, equal):
     sb, ssi, res, eqv, _ = site
     flow = BoolFlow(body, sb, ssi, {res: eqv if equal else 1 - eqv})
     return set(flow.in_state.keys()) | ({sb} if ssi else set())
+
+
+def feasible_after_outcome(body, call, ok):
+    """Blocks that can still execute after the fallible `call` returned Ok/Some (`ok=True`) or Err/None: the variant is
+    propagated through moves, `?` (Try::branch / from_residual), map_err / map, is_ok() and matches - also when the
+    call sits in an inlined helper whose own `?` returns to a second `?` in the caller."""
+    ty = body.local_ty(call.dest["l"]).strip()
+    is_opt = ty.startswith(("std::option::Option<", "core::option::Option<"))
+    v = (("V", "Some", 1) if ok else ("V", "None", 0)) if is_opt else (("V", "Ok", 0) if ok else ("V", "Err", 1))
+    if call.target is None or call.dest["p"]:
+        return set(body.live_blocks())
+    flow = BoolFlow(body, call.target, 0, {call.dest["l"]: v})
+    return set(flow.in_state.keys())
 
 
 def feasible_from_entry(body, avoid=()):
